@@ -166,18 +166,24 @@ def work(arg, timeout_ms=60000):
             t0[off:off + ln] = b[off:off + ln]
     t0 = bytes(t0)
     job = ["tgt %s" % b.hex(), "chunk 16", "timeout %d" % timeout_ms]
-    for label, klass, hdr, body, cuts in items:
-        job.append("case tmark=%s limit=-1 hdr=%s body=%s cuts=%s" % (tmark, ";".join(h.hex() for h in hdr) or "-", body.hex() or "-", cuts))
+    for label, klass, hdr, body, cuts, *second in items:
+        line = "case tmark=%s limit=-1 hdr=%s body=%s cuts=%s" % (tmark, ";".join(h.hex() for h in hdr) or "-", body.hex() or "-", cuts)
+        if second:      # (header lines, body, what the client does in between) of a second response on the same zckDL
+            h2, b2, between = second[0]
+            line += " hdr2=%s body2=%s between=%d" % (";".join(h.hex() for h in h2) or "-", b2.hex() or "-", between)
+        job.append(line)
     cs = core.drv("feed", "\n".join(job) + "\n", timeout=7200)
     res = {"n": 0, "parts": 0, "wrote": 0, "viol": [], "outcomes": set()}
-    for c, (label, klass, hdr, body, cuts) in zip(cs, items):
+    for c, (label, klass, hdr, body, cuts, *second) in zip(cs, items):
         res["n"] += 1
         case = {"name": name, "b": b.hex(), "tmark": tmark, "req": req, "label": label, "klass": klass, "hdr": [h.hex() for h in hdr],
                 "body": body.hex() if len(body) < 200000 else None, "cuts": cuts}
+        if second:
+            case["second"] = [[h.hex() for h in second[0][0]], second[0][1].hex(), second[0][2]]
         f = c.first("F")
         if (not c.done or f is None) and c.status()["timeout"] and timeout_ms < 600000:
             # a timed-out case is re-run alone with ten times the limit before it is called a hang
-            r2 = work((name, b, tmark, req, [(label, klass, hdr, body, cuts)]), timeout_ms * 10)
+            r2 = work((name, b, tmark, req, [(label, klass, hdr, body, cuts) + tuple(second)]), timeout_ms * 10)
             res["parts"] += r2["parts"]; res["wrote"] += r2["wrote"]; res["outcomes"] |= r2["outcomes"]; res["viol"] += r2["viol"]
             res["slow"] = res.get("slow", 0) + 1
             continue
@@ -292,6 +298,21 @@ def run(ctx):
         items1.append(("plain-flipped", "plain-corrupt", [], bytes([exp[0] ^ 1]) + exp[1:], "sweep1"))
         items1.append(("plain-with-multipart-header", "plain-corrupt", hgood, exp, "sweep1"))
         items1.append(("multipart-body-without-header", "plain-corrupt", [], good, "sweep1"))
+        # two responses on one zckDL: whatever the client does in between (nothing, the range set again, a reset with or without
+        # the range), the second header line and body meet the state the first response left behind (compiled patterns, boundary,
+        # carried-over bytes, the position inside the range index)
+        bd2 = "Zz9" + BD[::-1]
+        hsecond = [b"Content-Type: multipart/byteranges; boundary=" + bd2.encode() + b"\r\n"]
+        good2 = Resp(b, rr, bd2).render()
+        firsts = [("well-formed", hgood, good), ("cut-in-part-header", hgood, good[:len(good) // 3]), ("cut-in-payload", hgood, good[:len(good) - 40]),
+                  ("header-only", hgood, b""), ("plain", [], b"".join(b[a:z + 1] for a, z in rr)), ("bad-boundary-line", [b"Content-Type: multipart/byteranges; boundary=\"\r\n"], good)]
+        seconds = [("other-boundary", hsecond, good2), ("same-boundary", hgood, good), ("plain", [], b"".join(b[a:z + 1] for a, z in rr)),
+                   ("header-only", hsecond, b""), ("other-boundary-truncated", hsecond, good2[:len(good2) // 2])]
+        for fn_, fh, fb in firsts:
+            for sn_, sh, sb in seconds:
+                for between in (0, 1, 2, 3):
+                    for cuts in ("-", "all1"):
+                        items2.append(("first=%s between=%d second=%s" % (fn_, between, sn_), "two-responses", fh, fb, cuts, (sh, sb, between)))
         ncases += len(items1) + len(items2)
         items2.sort(key=lambda it: -len(it[3]) * (150 if it[4].startswith("sweep") else 1))   # heavy cases first, spread over the workers
         for k in range(48):
@@ -317,6 +338,9 @@ def run(ctx):
 def replay(case, quiet=True):
     if case["body"] is None:
         return {"violated": True, "detail": "body too large for the replay file; re-run the check"}
+    sec = ()
+    if case.get("second"):
+        sec = (([bytes.fromhex(h) for h in case["second"][0]], bytes.fromhex(case["second"][1]), case["second"][2]),)
     r = work((case["name"], bytes.fromhex(case["b"]), case["tmark"], case["req"],
-              [(case["label"], case["klass"], [bytes.fromhex(h) for h in case["hdr"]], bytes.fromhex(case["body"]), case["cuts"])]))
+              [(case["label"], case["klass"], [bytes.fromhex(h) for h in case["hdr"]], bytes.fromhex(case["body"]), case["cuts"]) + sec]))
     return {"violated": bool(r["viol"]), "detail": [v[1] for v in r["viol"]]}
